@@ -170,7 +170,15 @@ static int parse_set(AsmContext *asm_context)
 #endif
 
   // REVIEW - should num be divided by bytes_per_address for dsPIC and avr8?
-  if (asm_context->symbols.set(name, num) != 0)
+  int ret = asm_context->symbols.set(name, num);
+
+  if (ret == -2)
+  {
+    print_error(asm_context, ".set of a symbol that pass 1 did not see");
+    return -1;
+  }
+
+  if (ret != 0)
   {
     // The name is already a label, which cannot be changed.
     print_already_defined(asm_context, name);
